@@ -787,12 +787,27 @@ impl TypeSpec {
         out
     }
 
-    /// `fn vals() -> Vec<Ty>` source
+    /// `fn vals() -> Vec<Ty>` source. Union values are built in zeroed storage (every byte
+    /// initialised) by writing one field at a time.
     pub fn render_vals_fn(&self) -> String {
         let ty = self.inst_ty();
         let mut o = format!("pub fn vals() -> ::std::vec::Vec<{ty}> {{\n    let mut v: ::std::vec::Vec<{ty}> = ::std::vec::Vec::new();\n");
-        for (vi, ix) in self.value_indices() {
-            writeln!(o, "    {{ let x: {ty} = {}; v.push(x); }}", self.value_expr(vi, &ix)).unwrap();
+        if self.kind == Kind::Union {
+            for f in &self.variants[0].fields {
+                for val in &f.ty.vals {
+                    writeln!(
+                        o,
+                        "    {{ let mut u = ::core::mem::MaybeUninit::<{ty}>::zeroed(); let x: {ty} = unsafe {{ (*u.as_mut_ptr()).{} = {}; u.assume_init() }}; v.push(x); }}",
+                        f.name.as_ref().unwrap(),
+                        val
+                    )
+                    .unwrap();
+                }
+            }
+        } else {
+            for (vi, ix) in self.value_indices() {
+                writeln!(o, "    {{ let x: {ty} = {}; v.push(x); }}", self.value_expr(vi, &ix)).unwrap();
+            }
         }
         o.push_str("    v\n}\n");
         o
